@@ -38,4 +38,13 @@ def locksetOk (acc : List Access) (v : String) : Bool :=
 def who (acc : List Access) (v : String) : List (String × String) :=
   (sharedAccesses acc v).map (fun a => (fn a, kind a))
 
+/-- (function, locks held) of the WRITES to a variable outside the functions in `ctors`
+    (constructors work on an object nobody else can see yet) -/
+def writesOutside (acc : List Access) (v : String) (ctors : List String) : List (String × List (String × String)) :=
+  ((sharedAccesses acc v).filter (fun a => kind a == "w" && !ctors.contains (fn a))).map (fun a => (fn a, locks a))
+
+/-- functions that READ a variable with no lock lexically held, outside `ctors` (duplicates removed) -/
+def unlockedReaders (acc : List Access) (v : String) (ctors : List String) : List String :=
+  (((sharedAccesses acc v).filter (fun a => kind a == "r" && (locks a).isEmpty && !ctors.contains (fn a))).map fn).eraseDups
+
 end Mkts.Lockset
